@@ -24,34 +24,55 @@ def param_assignments(p, rng, n, exhaustive_limit=0):
                 rec(i + 1, cur)
         rec(0, {})
         return out
-    out.append({n_: lo for n_, lo, hi in eps})
-    out.append({n_: hi for n_, lo, hi in eps})
-    base = {n_: lo for n_, lo, hi in eps}
+    lo_all = {n_: lo for n_, lo, hi in eps}
+    hi_all = {n_: hi for n_, lo, hi in eps}
+    # per parameter: every value of a small parameter, else boundaries, the middle, one-hot bits and their complements - the other
+    # parameters at their minimum
+    per_param = []
     for n_, lo, hi in eps:
-        # one-hot bits and boundaries of this parameter, others at their minimum / random
-        vals = {lo, hi, (lo + hi) // 2}
-        b = 1
-        while b <= hi:
-            if lo <= b <= hi:
-                vals.add(b)
-            if lo <= hi - b <= hi:
-                vals.add(hi - b)
-            b <<= 1
-        for v in sorted(vals):
-            a = dict(base)
+        if hi - lo + 1 <= 8:
+            vals = list(range(lo, hi + 1))
+        else:
+            vs = {lo, hi, (lo + hi) // 2}
+            b = 1
+            while b <= hi:
+                if lo <= b <= hi:
+                    vs.add(b)
+                if lo <= hi - b <= hi:
+                    vs.add(hi - b)
+                b <<= 1
+            vals = sorted(vs, key=lambda v: (v not in (hi, (lo + hi) // 2, lo + 1), v))
+        cands = []
+        for v in vals:
+            a = dict(lo_all)
             a[n_] = v
-            out.append(a)
-            if len(out) >= n * 3:
-                break
-    while len(out) < n:
-        out.append({n_: rng.randint(lo, hi) for n_, lo, hi in eps})
-    # keep deterministic prefix (min, max) and sample the rest
-    head, tail = out[:2], out[2:]
-    rng.shuffle(tail)
-    res = head + tail[:max(0, n - 2)]
-    # top up with random assignments
-    while len(res) < n:
-        res.append({n_: rng.randint(lo, hi) for n_, lo, hi in eps})
+            if a != lo_all and a != hi_all:
+                cands.append(a)
+        per_param.append(cands)
+    # round-robin over the parameters so that each gets its share of a small budget
+    rr = []
+    i = 0
+    while any(i < len(c) for c in per_param):
+        for c in per_param:
+            if i < len(c) and c[i] not in rr:
+                rr.append(c[i])
+        i += 1
+    res = [lo_all] + ([hi_all] if hi_all != lo_all else [])
+    budget = max(0, n - len(res))
+    fixed = rr[:(budget * 2 + 2) // 3]          # deterministic part: does not depend on the seed
+    rest = rr[len(fixed):]
+    rng.shuffle(rest)
+    res += fixed
+    for a in rest:
+        if len(res) >= n:
+            break
+        res.append(a)
+    tries = 0
+    while len(res) < n and tries < 4 * n:
+        a = {n_: rng.randint(lo, hi) for n_, lo, hi in eps}
+        tries += 1
+        if a not in res:
+            res.append(a)
     return res
 
 
